@@ -148,7 +148,14 @@ func (c exactEqualsComparator) lineStringsEq(ls1, ls2 LineString) bool {
 		return revEq
 	}
 
-	// Finally, check if the rings are the same once rotated.
+	// Finally, check if the rings are the same once rotated. Rotating a ring
+	// discards its final control point (which is replaced by a copy of the
+	// new first control point), so this only makes sense if the final control
+	// point of each ring is equal to its first control point in all dimensions
+	// (rings only have to be closed in XY, their Z and M values may differ).
+	if !c.eq(c1.Get(0), c1.Get(n-1)) || !c.eq(c2.Get(0), c2.Get(n-1)) {
+		return false
+	}
 	for o := 1; o < n; o++ {
 		offset := func(i int) int {
 			return (i + o) % (n - 1)
